@@ -274,7 +274,7 @@ func LoadProgram() (*Program, error) {
 			}
 			endLocals = append(endLocals, paramDecl(v, is))
 		}
-		for _, cl := range c.Ensures {
+		for _, cl := range append(append([]*Clause{}, c.Ensures...), c.Goals...) {
 			ps := append(append(append([]string{}, base...), ghosts...), results...)
 			rs := map[string]bool{}
 			for _, r := range ps {
@@ -325,6 +325,9 @@ func LoadProgram() (*Program, error) {
 				pos = l.Body.Lbrace
 			}
 			ps := localParams(pos)
+			if _, isRange := fi.Loops[k-1].(*ast.RangeStmt); isRange {
+				ps = append(ps, "rangeIdx int") // the hidden index of the range loop
+			}
 			for _, cl := range lc.Invariants {
 				emit(cl, ps, "bool", false)
 			}
@@ -442,6 +445,9 @@ func LoadProgram() (*Program, error) {
 			bind(cl)
 		}
 		for _, cl := range c.Ensures {
+			bind(cl)
+		}
+		for _, cl := range c.Goals {
 			bind(cl)
 		}
 		for _, gv := range c.GhostVars {
